@@ -31,7 +31,8 @@ def benign_table():
               ("agent-written round 6 (gCxx_n; 'a different maintainer: different taste, different habits')", "g"),
               ("agent-written round 7 (hCxx_n; one change each of three prescribed kinds: structure, control-flow idiom, data/arithmetic form)", "h"),
               ("agent-written round 8 (iCxx_n; larger changes: a tidy-up pass over several functions, an internal redesign of a private piece, a performance-motivated rewrite)", "i"),
-              ("agent-written round 9 (jCxx_n; cross-module reorganisation, one error-handling style applied to a whole file, named concepts)", "j")]
+              ("agent-written round 9 (jCxx_n; cross-module reorganisation, one error-handling style applied to a whole file, named concepts)", "j"),
+              ("agent-written round 10 (kCxx_n; newer std/language idioms, a lint-driven sweep over one file, pointer/const hygiene; 54 of 60 delivered in time)", "k")]
     out = ["| suite | variants | silent on all 20 checks | alarming |", "|---|---|---|---|"]
     for title, pre in groups:
         names = sorted(k for k in m if k.startswith(pre))
